@@ -206,6 +206,9 @@ var vfEntryPool = []string{"gfet4t7; dur=12", "gfet4t7; dur=0", "gfet4t7; dur=-3
 func vfGenT4T7(rt *rapid.T) *vfT4t7Case {
 	list := func(label string) []string {
 		n := rapid.IntRange(0, 4).Draw(rt, label+"n")
+		if rapid.IntRange(0, 29).Draw(rt, label+"many") == 0 {
+			n = rapid.IntRange(20, 80).Draw(rt, label+"nmany")
+		}
 		var l []string
 		for i := 0; i < n; i++ {
 			if rapid.IntRange(0, 5).Draw(rt, label+"rand") == 0 {
